@@ -9,7 +9,10 @@ Engine A (bounded-exhaustive inputs, independent oracle in ``vf.c20_model``):
               ``fuse_statement_streams_with_unique_ids`` and ``disambiguate_and_fuse``.
 * ``disamb``  every ordered pair of statement bodies with every placement of the identifiers in
               written name / lhs index / rhs / condition (plus two-statement streams), three
-              filters: ``disambiguate_identifiers`` and ``disambiguate_and_fuse``.
+              filters: ``disambiguate_identifiers`` and ``disambiguate_and_fuse``.  A further
+              block carries "typed twins" (x + 1, x + 1.0, x + True, x*2, x*2.0, and the
+              hash-colliding x + -1, x + -2) in every pair of positions of stream b: the
+              renamed stream is compared type-strictly, so nothing but names may change.
 * ``dot``     every labelled DAG on <= 4 (quick) / 5 (thorough) statements: the edges drawn by
               ``get_dot_dependency_graph`` == transitive reduction (longest-path criterion).
 * ``dot-chains`` chains of 6 (thorough: also 7) statements with at most one shortcut edge in every
@@ -194,6 +197,39 @@ def stream_of(bodies):
                  for i, b in enumerate(bodies))
 
 
+def Prod(*ch):
+    return ("Product", ("tuple", *ch))
+
+
+# expressions that compare == (or at least hash alike) but differ in the type / value of a nested
+# constant: a renaming must keep every one of them apart
+TWIN_EXPRS = (
+    Sum(X, ("int", 1)), Sum(X, ("float", 1.0)), Sum(X, ("bool", True)),
+    Prod(X, ("int", 2)), Prod(X, ("float", 2.0)),
+    Sum(X, ("int", -1)), Sum(X, ("int", -2)),          # hash(-1) == hash(-2)
+)
+
+
+def twin_lists():
+    """A-streams: one that clashes on x and one that clashes on nothing.  B-streams: every ordered
+    pair of statements carrying a twin expression in the rhs, in the lhs index or in the
+    condition, and every single statement carrying two of them (lhs index + rhs, rhs +
+    condition)."""
+    W = Var("w")
+    bodies = []
+    for e in TWIN_EXPRS:
+        bodies.append(("A", Y, e, None))
+        bodies.append(("A", Sub(Z, e), M.ZERO, None))
+        bodies.append(("CA", Y, M.ZERO, Lt(e, M.ZERO)))
+    lb = [stream_of((b, c)) for b in bodies for c in bodies]
+    for e in TWIN_EXPRS:
+        for f in TWIN_EXPRS:
+            lb.append(stream_of((("A", Sub(Z, e), f, None),)))
+            lb.append(stream_of((("CA", Y, e, Lt(f, M.ZERO)),)))
+    la = [stream_of((("A", X, M.ZERO, None),)), stream_of((("A", W, M.ZERO, None),))]
+    return la, lb
+
+
 def disamb_lists(tier):
     """-> list of (A-streams, B-streams) blocks; every pair inside a block is explored."""
     one = [stream_of((b,)) for b in bodies_over(DISAMB_NAMES[tier], ("N", "T1", "T2", "T3", "T4"))]
@@ -201,21 +237,24 @@ def disamb_lists(tier):
     small = bodies_over(DISAMB2_NAMES, t2)
     single = [stream_of((b,)) for b in small]
     double = [stream_of((b, c)) for b in small for c in small]
-    return [(one, one), (single, double), (double, single)]
+    return [(one, one), (single, double), (double, single), twin_lists()]
 
 # }}}
 
 
 # {{{ bfs family: pool and menu
 
-# P0: written aggregate z, x in an lhs index and on a rhs.  P1: z only in a condition; redundant
-# dependency s2 -> s0.  P2: generated-looking names s0_0 / x_0, dependency on a later id.
-# P3: a lone no-op.  P4: conditional subscript assignment, first statement depends on nothing,
-# second on the first, ids out of order.  P5: z only in an lhs index.
+# P0: written aggregate z, x written and in an lhs index; typed twins y + 1 / y + 1.0.
+# P1: z only in a condition; redundant dependency s2 -> s0.
+# P2: generated-looking names s0_0 / x_0, dependency on a later id; hash-colliding twins
+#     x + -1 / x + -2.
+# P3: a lone no-op.
+# P4: conditional subscript assignment, ids out of order.
+# P5: z only in an lhs index.
 POOL = (
-    (A("s0", X, Y), A("s1", Sub(Z, X), Sum(X, Y), ["s0"])),
+    (A("s0", X, Sum(Y, ("int", 1))), A("s1", Sub(Z, X), Sum(Y, ("float", 1.0)), ["s0"])),
     (CA("s0", Y, X, Lt(Z, M.ZERO)), N("s1", ["s0"]), A("s2", X, Y, ["s0", "s1"])),
-    (A("s0_0", X0, X), A("s0", Y, X0, ["s0_0"])),
+    (A("s0_0", X0, Sum(X, ("int", -1))), A("s0", Y, Prod(Sum(X, ("int", -2)), X0), ["s0_0"])),
     (N("s1"),),
     (CA("s2", Sub(Z, Y), X, Lt(Y, Z)), A("s0", X, ("int", 1), ["s2"])),
     (A("s1", Sub(Y, Z), M.ZERO),),
@@ -317,7 +356,10 @@ class C20(Check):
         "with every injective id assignment from a 3 (4) element pool, every acyclic dependency "
         "relation and every class layout; every ordered pair of statement bodies over every "
         "placement of 2 (3) identifiers in written name / lhs index / rhs / condition, with "
-        "filters all / none / {x}, plus all two-statement streams over a reduced body set; every "
+        "filters all / none / {x}, plus all two-statement streams over a reduced body set, plus "
+        "every pair of positions (rhs / lhs index / condition, same or different statement) "
+        "filled with 7 'typed twin' expressions (x+1, x+1.0, x+True, x*2, x*2.0, x+-1, x+-2) "
+        "against a clashing and a non-clashing first stream, compared type-strictly; every "
         "labelled DAG on <= 4 (5) statements for the dot export, plus every 6 (7) statement chain "
         "with <= 1 shortcut edge in every statement order and with every set of shortcut edges "
         "in natural and reversed order. distinct_nontrivial counts "
